@@ -65,7 +65,7 @@ Inductive darg := DSame | DSucc | DZero.
 
 Inductive G :=
 | Leaf (l : leaf)
-| Ref (f : string) (d : darg)
+| Ref (f : N) (d : darg)                  (* call of the parser function with identifier f *)
 | Guard (max : nat) (g : G)              (* if depth >= max { return Err(Error) } *)
 | Seq (gs : list G)                      (* tuple / pair / preceded / ... : value is the VTuple of all results *)
 | Alt (gs : list G)
